@@ -105,6 +105,8 @@ type Opts struct {
 	CpcDeployStaking     bool
 	CpcDeployBech32      bool
 	CpcWhitelist         []string
+	EvmDisableCreate     bool // x/evm params: enable_create = false
+	EvmDisableCall       bool // x/evm params: enable_call = false
 	Patch                func(cdc params.EncodingConfig, gs chainapp.GenesisState)
 	// node-local options (must not influence consensus results)
 	MinGasPricesNode string
@@ -282,6 +284,8 @@ func New(o Opts) *Chain {
 
 	eg := evmtypes.DefaultGenesisState()
 	eg.Accounts = evmAccs
+	eg.Params.EnableCreate = !o.EvmDisableCreate
+	eg.Params.EnableCall = !o.EvmDisableCall
 	gs[evmtypes.ModuleName] = cdc.MustMarshalJSON(eg)
 
 	cg := cpctypes.DefaultGenesis()
